@@ -618,3 +618,60 @@ def async_test(uni, rng, idx, nops=14, nslots=5):
             ops.append({"op": "obs"})
     t = {"id": "as%d" % idx, "cfg": make_cfg(rng.random() < 0.5, True, rng.randrange(len(STORAGE)), thr=thr, tmo_ms=tmo * 100), "ops": ops, "fields": ["K", "S"] + g.flds[:1], "vclock": True}
     return t
+
+
+# --------------------------------------------------------------------------- concurrent histories (C08 / C09)
+
+def conc_test(uni, rng, idx, nthreads=3, nops=3, nslots=4, race=False, reopen=None, cfgs=None):
+    cm = uni["casemul"]
+
+    def obj(slot, batch=False):
+        k = (12 + slot) if batch else 6 + rng.randrange(3)
+        return {"K": k, "S": (1 + (k - 5)) * cm, "A": 4 + rng.randrange(2), "V": 2, "pl": 0}
+    setup = [{"op": "put", "slot": s, "o": obj(s)} for s in rng.sample(range(1, nslots + 1), rng.randrange(0, nslots))]
+    # distinct keys in the set-up (a rejected set-up write is simply not part of the history)
+    threads = []
+    for g in range(nthreads):
+        ops = []
+        for _ in range(nops):
+            x = rng.random()
+            s = rng.randrange(1, nslots + 1)
+            if x < 0.36:
+                ops.append({"op": "put", "slot": s, "o": obj(s)})
+            elif x < 0.48:
+                ops.append({"op": "del", "slot": s})
+            elif x < 0.60:
+                ops.append({"op": "get", "slot": s})
+            elif x < 0.65:
+                ops.append({"op": "exist", "slot": s})
+            elif x < 0.70:
+                ops.append({"op": "count"})
+            elif x < 0.79:
+                ops.append({"op": "all"})
+            elif x < 0.89:
+                f = rng.choice(["K", "A", "V"])
+                p = {"K": 6 + rng.randrange(3), "A": 4 + rng.randrange(2), "V": 2}[f]
+                q = [{"f": f, "op": rng.choice(QOPS), "p": p}]
+                if race and rng.random() < 0.6:
+                    f2 = rng.choice(["K", "A", "V"])
+                    q.append({"f": f2, "op": rng.choice(QOPS), "p": {"K": 7, "A": 4, "V": 2}[f2], "conn": rng.choice(["and", "or"])})
+                ops.append({"op": "q", "q": q})
+            elif x < 0.95:
+                s2 = (s % nslots) + 1
+                ops.append({"op": "many", "batch": [{"slot": s, "o": obj(s, True)}, {"slot": s2, "o": obj(s2, True)}]})
+            elif x < 0.98:
+                ops.append({"op": "delall"})
+            else:
+                ops.append({"op": "delq", "q": [{"f": "A", "op": rng.choice(QOPS), "p": 4 + rng.randrange(2)}]})
+            if race and rng.random() < 0.08:
+                ops.append({"op": rng.choice(["flush", "control", "aidx"])})
+            if race and rng.random() < 0.04:
+                ops.append({"op": "switch", "cfg": {"cache": rng.random() < 0.5, "async": rng.random() < 0.5}})
+        threads.append(ops)
+    c = rng.choice(cfgs) if cfgs else (rng.random() < 0.4, rng.random() < 0.3)
+    t = {"id": "cc%d" % idx, "cfg": make_cfg(c[0], c[1], rng.randrange(len(STORAGE)), thr=rng.choice([1, 2, 100000]), tmo_ms=rng.choice([100, 3600000])),
+         "ops": setup, "threads": threads, "perturb": rng.random() < 0.7, "yield": rng.random() < 0.5,
+         "reopen": (rng.random() < 0.4) if reopen is None else reopen, "fields": ["K"]}
+    if race:
+        t["norecord"] = True
+    return t
